@@ -342,20 +342,29 @@ def build_unit(repo, unit_rel, variants=(), canary=False, word=64):
     wraps = {}
     with open(path) as f:
         lines = f.read().split('\n')
-    for ln in lines:
+    lines = list(reversed(lines))           # work list (directives inside an included lib file are processed too)
+    depth_guard = 0
+    while lines:
+        ln = lines.pop()
         m = re.match(r'\s*//@@\s*(\w+)\s*(.*)$', ln)
         if not m:
             out.append(ln)
             continue
         cmd, rest = m.group(1), m.group(2).split()
         if cmd == 'INCLUDE':
+            depth_guard += 1
+            if depth_guard > 200:
+                raise UnitProblem('INCLUDE recursion')
             for k, v in subst.items():
                 rest[0] = rest[0].replace('@%s@' % k, v)
             with open(os.path.join(CONTRACTS, rest[0])) as f:
                 inc = f.read()
             for k, v in subst.items():
                 inc = inc.replace('@%s@' % k, v)
-            out.append(inc)
+            if '//@@' in inc:
+                lines.extend(reversed(inc.split('\n')))
+            else:
+                out.append(inc)
         elif cmd == 'WRAP':
             # //@@ WRAP <key> fn name(params) -> ret      (rule E3 function header, referenced by wrap=<key>)
             wraps[rest[0]] = m.group(2).split(None, 1)[1]
